@@ -45,6 +45,40 @@ Theorem C01_failures_once : forall exc r i t s, ok_test exc r t = true ->
 Proof. exact one_test_fails. Qed.
 Print Assumptions C01_failures_once.
 
+(* check kinds (every assert entry point of UtestShell, the C interface in front of them, the CHECK_COMPARE macro).  Machine level,
+   from ANY state, both builds: a statement SCheckK kd a f l adds exactly [counted kd a] to the checks counter and, when it fails,
+   exactly one failure record carrying the location (f, l) it was given (output and failure counter); the phase goes on iff it
+   passes; a failing C-interface kind leaves by longjmp in both builds, a failing UtestShell kind by the exception when there are any *)
+Theorem C01_checkk_step : forall exc i ph k0 kd a f l s,
+  let r := exec_stmt exc i ph k0 (SCheckK kd a f l) s in
+  k_checks (cn (fst r)) = (k_checks (cn s) + counted kd a)%N /\
+  fails_of (out (fst r)) = fails_of (out s) ++ (if passes kd a then [] else [mkF i f l 0]) /\
+  k_fail (cn (fst r)) = (k_fail (cn s) + (if passes kd a then 0 else 1))%N /\
+  events_of (out (fst r)) = events_of (out s) ++ [mkEv i ph k0 (depth s)] /\
+  (snd r = ONormal <-> passes kd a = true) /\
+  (passes kd a = false -> snd r = if c_style kd || negb exc then OJump (depth s - 1) else OThrow XFailed).
+Proof. exact checkk_step. Qed.
+Print Assumptions C01_checkk_step.
+
+(* the same at the level of the oracle's vocabulary (what C01_lifecycle / C01_failures_once / C01_summary_true are stated with): a
+   check of kind kd after passing statements is executed, adds counted kd a to the phase's "checks", demands exactly the record at
+   (f, l) when it fails and then cuts the phase off; nothing of it is demanded when it passes *)
+Theorem C01_checkk_wants : forall i t pre kd a f l post, completes pre = true ->
+  let x := SCheckK kd a f l in
+  executed (pre ++ x :: post) = pre ++ x :: (if passes kd a then executed post else []) /\
+  nb counts_check (executed (pre ++ x :: post)) =
+    (nb counts_check pre + counted kd a + (if passes kd a then nb counts_check (executed post) else 0))%N /\
+  flat_map (stmt_failure i t) (executed (pre ++ x :: post)) =
+    (if passes kd a then flat_map (stmt_failure i t) (executed post) else [mkF i f l 0]).
+Proof. exact checkk_wants. Qed.
+Print Assumptions C01_checkk_wants.
+
+(* a failing check is always counted; the only executed-but-uncounted check statement is the CHECK_COMPARE macro on a true
+   comparison (UtestShell::assertCompare itself counts whether or not the comparison holds) *)
+Theorem C01_uncounted_only_macro : forall k a, (passes k a = false -> counted k a = 1%N) /\ (counted k a = 0%N <-> (k = MCompare /\ a = true)).
+Proof. exact (fun k a => conj (fail_is_counted k a) (uncounted_only_macro k a)). Qed.
+Print Assumptions C01_uncounted_only_macro.
+
 (* the jump-buffer index returns to its pre-test value after every test, for every mix of failure kinds *)
 Theorem C01_depth_restored : forall exc r i t s, ok_test exc r t = true ->
   depth (fst (run_one_test exc r i t s)) = depth s.
